@@ -266,6 +266,23 @@ theorem history_independent {V W : Type} (cw : CacheWiring) (hs : cacheSafe cw =
       = (objStep cw f (objRun cw f PtObj.empty ops') (.get k)).2 := by
   rw [get_is_function_of_current cw hs, get_is_function_of_current cw hs, h]
 
+/-- `compute_caps` writes nothing besides the caps that `set_mpo_tensor` does not reset on every
+    call (an "already up to date" memo would have to be dropped by EVERY tensor write) -/
+theorem caps_flags_safe : cacheSafe simpleCapsFlag = true ∧ cacheSafe fileCapsFlag = true := by
+  decide
+
+/-- **After `compute_caps()` the caps are a function of the CURRENT tensors only.**  The object as
+    a whole: `set` = any write of an MPO tensor (the stored value `ts` is the current list of
+    tensors), `get` = `compute_caps()` followed by reading the caps, `capsOf` what the recursion
+    computes from a tensor list (`capStepOf`, iterated).  With the memoisation behaviour read from
+    the source, after any history of tensor writes and `compute_caps()` calls the caps are
+    `capsOf` of the tensors stored now — the same as for a fresh object given the final tensors. -/
+theorem caps_are_function_of_current {V W : Type} (cw : CacheWiring) (hs : cacheSafe cw = true)
+    (capsOf : V → W) (ops : List (PtOp V)) :
+    (objStep cw capsOf (objRun cw capsOf PtObj.empty ops) (.get 0)).2
+      = ((objRun cw capsOf PtObj.empty ops).stored 0).map capsOf :=
+  get_is_function_of_current cw hs capsOf ops 0
+
 /-- the hypothesis `cacheSafe` is needed: a memo that the setter does not drop goes stale
     (set 1, get, set 2, get answers 1 twice) -/
 example : objTrace { cached := true, invalidatedBySet := false } (fun v : ℕ => v) PtObj.empty
